@@ -182,7 +182,184 @@ def c09_run(inp):
     return {"reproduced": False, "detail": f"{cls_name}.run satisfied the hard-criteria statement on {tried} seeded configurations"}
 
 
-DRIVERS = {"c09_run": c09_run}
+# ----------------------------------------------------------------------------------
+# C10: labels produced by run() against an independent reading of the property
+# ----------------------------------------------------------------------------------
+
+def _mac(a, b):
+    return abs(np.vdot(a, b)) ** 2 / (np.vdot(a, a).real * np.vdot(b, b).real)
+
+
+def expected_labels(Fn, Xi, Phi, ordmin, ordmax, offset, ef, ex, ep):
+    Lab = np.zeros(Fn.shape, dtype=int)
+    for c in range(Fn.shape[1]):
+        order = c + offset
+        if not (ordmin <= order <= ordmax) or c == 0:
+            continue
+        prev = Fn[:, c - 1]
+        if np.all(np.isnan(prev)):
+            continue
+        for i in range(Fn.shape[0]):
+            if np.isnan(Fn[i, c]):
+                continue
+            q = int(np.nanargmin(np.abs(prev - Fn[i, c])))
+            with np.errstate(all="ignore"):
+                ok = (abs(Fn[i, c] - Fn[q, c - 1]) / Fn[i, c] < ef and abs(Xi[i, c] - Xi[q, c - 1]) / Xi[i, c] < ex
+                      and 1 - _mac(Phi[i, c], Phi[q, c - 1]) < ep)
+            Lab[i, c] = 1 if ok else 0
+    return Lab
+
+
+def crafted_tables(n_rows, n_cols, nch, seed):
+    """pole tables with three persistent modes (slightly perturbed from order to order), spurious poles and holes"""
+    rng = np.random.RandomState(seed)
+    Fn = np.full((n_rows, n_cols), np.nan)
+    Xi = np.full((n_rows, n_cols), np.nan)
+    Phi = np.full((n_rows, n_cols, nch), np.nan, dtype=complex)
+    Lam = np.full((n_rows, n_cols), np.nan, dtype=complex)
+    modes = [(2.0, 0.01), (5.0, 0.02), (9.0, 0.015)]
+    shapes = [rng.randn(nch) for _ in modes]
+    for c in range(n_cols):
+        rows = list(range(n_rows))
+        rng.shuffle(rows)
+        k = 0
+        for m, (f, x) in enumerate(modes):
+            if k >= n_rows or rng.rand() < 0.12:
+                continue
+            r = rows[k]
+            k += 1
+            Fn[r, c] = f * (1 + 1e-3 * rng.randn())
+            Xi[r, c] = x * (1 + 1e-2 * rng.randn())
+            Phi[r, c] = shapes[m] * (1 + 1e-3 * rng.randn(nch))
+        while k < n_rows and rng.rand() < 0.5:
+            r = rows[k]
+            k += 1
+            Fn[r, c] = rng.uniform(1, 12)
+            Xi[r, c] = rng.uniform(0.001, 0.05)
+            Phi[r, c] = rng.randn(nch)
+        ok = ~np.isnan(Fn[:, c])
+        Lam[ok, c] = -Xi[ok, c] * 2 * np.pi * Fn[ok, c] + 1j * 2 * np.pi * Fn[ok, c]
+    return Fn, Xi, Phi, Lam
+
+
+def c10_run(inp):
+    import pyoma2.algorithms.plscf as aplscf
+    import pyoma2.algorithms.ssi as assi
+    from pyoma2.setup.single import SingleSetup
+    cls_name = inp["cls"]
+    offset = inp.get("offset", 0)
+    hc = dict(conj=False, xi_max=1.0, mpc_lim=0.0, mpd_lim=10.0, cov_max=1e9)
+    sc = dict(err_fn=0.01, err_xi=0.05, err_phi=0.03)
+    cases = []
+    om = inp.get("ordmax") or 8
+    omn = inp.get("ordmin")
+    for ordmax in sorted({min(max(int(om), 3), 10), 8}):
+        for ordmin in sorted({0, 1, 2, 3, min(int(omn) if omn is not None else 2, ordmax)}):
+            if ordmin <= ordmax:
+                cases.append((ordmin, ordmax))
+    y, fs = rng_data(1, n=1200, nch=3)
+    bad = []
+    for (ordmin, ordmax) in cases:
+        for seed in range(3):
+            if cls_name.startswith("SSI"):
+                n_rows, n_cols = ordmax, ordmax + 1
+                T = crafted_tables(n_rows, n_cols, 3, seed)
+                orig = assi.ssi.SSI_poles
+                assi.ssi.SSI_poles = lambda *a, **k: (T[0].copy(), T[1].copy(), T[2].copy(), T[3].copy(), None, None, None)
+                try:
+                    algo = getattr(assi, "SSIcov")(name="a", br=6, ordmax=ordmax, ordmin=ordmin, step=1, hc=hc, sc=sc)
+                    st = SingleSetup(y, fs=fs)
+                    st.add_algorithms(algo)
+                    res = algo.run()
+                finally:
+                    assi.ssi.SSI_poles = orig
+            else:
+                n_rows, n_cols = (ordmax + 1) * 3, ordmax
+                T = crafted_tables(n_rows, n_cols, 3, seed)
+                orig = aplscf.plscf.pLSCF_poles
+                aplscf.plscf.pLSCF_poles = lambda *a, **k: (T[0].copy(), T[1].copy(), T[2].copy(), T[3].copy())
+                try:
+                    algo = aplscf.pLSCF(name="a", ordmax=ordmax, ordmin=ordmin, nxseg=128, hc=hc, sc=sc)
+                    st = SingleSetup(y, fs=fs)
+                    st.add_algorithms(algo)
+                    res = algo.run()
+                finally:
+                    aplscf.plscf.pLSCF_poles = orig
+            want = expected_labels(res.Fn_poles, res.Xi_poles, res.Phi_poles, ordmin, ordmax, offset, sc["err_fn"], sc["err_xi"], sc["err_phi"])
+            got = np.asarray(res.Lab)
+            if got.shape != want.shape or not np.array_equal(got, want):
+                d = np.argwhere(got != want) if got.shape == want.shape else []
+                cell = [int(x) for x in d[0]] if len(d) else None
+                bad.append({"ordmin": ordmin, "ordmax": ordmax, "seed": seed, "cells_differing": int(len(d)), "first": cell,
+                            "order_of_first": (cell[1] + offset) if cell else None,
+                            "got": int(got[tuple(cell)]) if cell else None, "want": int(want[tuple(cell)]) if cell else None})
+                break
+        if bad:
+            break
+    if bad:
+        return {"reproduced": True, "detail": f"{cls_name}.run with stubbed pole tables labels differ from the property: {json.dumps(bad[0])}"}
+    return {"reproduced": False, "detail": f"{cls_name}.run labels agree with the property on {len(cases) * 3} crafted pole tables"}
+
+
+def _dec_arr(v):
+    import numpy as _np
+    if v["kind"] == "complex":
+        cells = [complex(_np.nan, _np.nan) if c is None else complex(c[0], c[1]) for c in v["cells"]]
+        return _np.array(cells, dtype=complex).reshape(v["shape"])
+    if v["kind"] == "float":
+        return _np.array([_np.nan if c is None else c for c in v["cells"]], dtype=float).reshape(v["shape"])
+    return _np.array(v["cells"]).reshape(v["shape"])
+
+
+def c10_fn(inp):
+    """real gen.SC_apply against the independent reading of the property"""
+    from pyoma2.functions import gen
+    tables = []
+    try:
+        Fn, Xi = _dec_arr(inp["Fn"]), _dec_arr(inp["Xi"])
+        n0, n1 = Fn.shape
+        for variant in ("same", "distinct"):
+            rng = np.random.RandomState(3)
+            base = rng.randn(3)
+            Phi = np.full((n0, n1, 3), np.nan, dtype=complex)
+            for i in range(n0):
+                for j in range(n1):
+                    if not np.isnan(Fn[i, j]):
+                        Phi[i, j] = base if variant == "same" else rng.randn(3) + 1j * rng.randn(3)
+            tables.append((f"model tables/{variant} shapes", Fn, Xi, Phi, int(inp["ordmin"]), int(inp["ordmax"]),
+                           float(inp["err_fn"]), float(inp["err_xi"]), float(inp["err_phi"])))
+    except Exception:       # noqa: BLE001
+        pass
+    for seed in range(12):
+        for (n_rows, n_cols) in ((5, 6), (9, 7)):
+            Fn, Xi, Phi, _ = crafted_tables(n_rows, n_cols, 3, seed)
+            rng = np.random.RandomState(seed)
+            if seed % 3 == 0:     # first column mirrors the last one (a persistent mode seen at the first order)
+                Fn[:, 0], Xi[:, 0], Phi[:, 0] = Fn[:, -1], Xi[:, -1], Phi[:, -1]
+            for ordmin in (0, 1, 2):
+                tables.append((f"crafted seed={seed} shape=({n_rows},{n_cols}) ordmin={ordmin}", Fn, Xi, Phi, ordmin,
+                               n_cols - 1 - (seed % 2), 0.01, 0.05, 0.03))
+    for (what, Fn, Xi, Phi, ordmin, ordmax, ef, ex, ep) in tables:
+        if ordmax >= Fn.shape[1] or ordmin < 0:
+            continue
+        args = (Fn.copy(), Xi.copy(), Phi.copy())
+        try:
+            got = gen.SC_apply(args[0], args[1], args[2], ordmin, ordmax, 1, ef, ex, ep)
+        except Exception as e:      # noqa: BLE001
+            return {"reproduced": True, "detail": f"SC_apply raised {type(e).__name__} on {what}"}
+        want = expected_labels(Fn, Xi, Phi, ordmin, ordmax, 0, ef, ex, ep)
+        if not all(np.array_equal(a, b, equal_nan=True) for a, b in zip(args, (Fn, Xi, Phi))):
+            return {"reproduced": True, "detail": f"SC_apply modified its argument tables on {what}"}
+        if got.shape != want.shape or not np.array_equal(np.asarray(got), want):
+            d = np.argwhere(np.asarray(got) != want)
+            cell = [int(x) for x in d[0]]
+            return {"reproduced": True, "detail": f"SC_apply differs from the property on {what}: cell {cell} (column = order "
+                                                  f"{cell[1]}) labelled {int(got[tuple(cell)])}, property says {int(want[tuple(cell)])}; "
+                                                  f"ordmin={ordmin} ordmax={ordmax}"}
+    return {"reproduced": False, "detail": f"SC_apply agrees with the property on {len(tables)} tables"}
+
+
+DRIVERS = {"c09_run": c09_run, "c10_run": c10_run, "c10_fn": c10_fn}
 
 
 def main():
